@@ -16,6 +16,7 @@
 (*  CLOBBER exit, same  (an output existed and -f was not given)           *)
 (*  SELFIN  exit, same  (the output designates the input)                  *)
 (*  INPUTS  same  (inputs unchanged after a run without --rm)              *)
+(*  DAMAGED exit, equal  (decompression of a stream with a damaged block)  *)
 (*  KILL    ok  (after a real SIGKILL: every source exists intact or its   *)
 (*          output decodes to it)                                          *)
 (***************************************************************************)
@@ -49,6 +50,8 @@ Bad(e) ==
       [] e.ev = "SELFIN" /\ ~(e.same /\ e.exit # 0) -> "C19_writes_to_own_input"
       [] e.ev = "INPUTS" /\ ~e.same -> "C19_input_modified"
       [] e.ev = "KILL" /\ ~e.ok -> "C19_kill_loses_data"
+      \* C02 at the command line: a checksummed stream with a damaged block payload either fails (exit # 0) or comes back intact
+      [] e.ev = "DAMAGED" /\ e.exit = 0 /\ ~e.equal -> "C02_cli_delivers_wrong_bytes_as_success"
       [] OTHER -> "none"
 
 Next == /\ l <= Len(Trace)
